@@ -104,6 +104,19 @@ func (r *c12run) collect() {
 
 // judgeEvents applies the oracle to the SMP events the victim raised during one step.
 func (r *c12run) judgeEvents(ev []sim.SMPEv, allowSuccess bool, what string) {
+	if r.sh.reject != "" && r.o.Violation == "" {
+		// the specification's verifier refuses this message: the victim must not carry the run forward
+		for _, e := range ev {
+			if e.Ev == otr3.SMPEventAskForSecret || e.Ev == otr3.SMPEventAskForAnswer || e.Ev == otr3.SMPEventInProgress {
+				sig := "C12/accepted-invalid"
+				if r.sc.Cfg.V == 2 && r.degenerate {
+					sig = "C12/v2-no-group-check"
+				}
+				r.o.Fail(sig, "the victim carried the SMP run forward (%v) on %s although a verifier applying the specification's checks rejects: %s", e.Ev, what, r.sh.reject)
+				return
+			}
+		}
+	}
 	succ, _, _, _, _ := smpFlags(ev)
 	if succ && !allowSuccess {
 		sig := "C12/false-success"
@@ -156,6 +169,20 @@ func fieldVal(orig *big.Int, v int) *big.Int {
 // deviate applies a step's deviation to an honest message; it reports whether anything changed.
 func (r *c12run) deviate(st DStep, m []*big.Int, groupIdx map[int]bool) ([]*big.Int, bool) {
 	out := append([]*big.Int{}, m...)
+	if st.V == 10 && (len(m) == 6 || len(m) == 11) {
+		// p-1 in place of g2x / g3x, with a proof of knowledge re-made so that it verifies
+		i, ver := 0, byte(1)
+		if st.F%2 == 1 {
+			i, ver = 3, 2
+		}
+		if len(m) == 11 {
+			ver += 2
+		}
+		out[i] = new(big.Int).Sub(ref.P, big.NewInt(1))
+		out[i+1], out[i+2] = ref.ResealLog(ver, r.refRnd)
+		r.degenerate = true
+		return out, true
+	}
 	if st.V%10 == 0 || len(m) == 0 {
 		return out, false
 	}
@@ -526,7 +553,9 @@ func init() { reg("C12deviant", runC12); reg("C12fields", runC12); reg("C12degen
 func genDStep(rt *rapid.T, kinds []string) DStep {
 	st := DStep{K: rapid.SampledFrom(kinds).Draw(rt, "k")}
 	if strings.HasPrefix(st.K, "r") && st.K != "rabort" {
-		switch rapid.IntRange(1, 5).Draw(rt, "devkind") {
+		switch rapid.IntRange(1, 6).Draw(rt, "devkind") {
+		case 6:
+			st.V, st.F = 10, rapid.IntRange(0, 1).Draw(rt, "which")
 		case 1, 2, 3:
 			st.F = rapid.IntRange(0, 10).Draw(rt, "field")
 			st.V = rapid.IntRange(1, 9).Draw(rt, "val")
@@ -588,12 +617,15 @@ func TestProp_C12_Fields(t *testing.T) {
 		{[]DStep{{K: "vstart"}}, "r2", 11, []DStep{{K: "r4"}}},
 		{[]DStep{{K: "vstart"}, {K: "r2"}}, "r4", 3, nil},
 	}
-	vals := []int{1, 2, 3, 4, 5, 6, 7, 8, 9}
+	vals := []int{1, 2, 3, 4, 5, 6, 7, 8, 9, 10}
 	for _, v := range []int{3, 2} {
 		for _, sl := range slots {
 			for f := 0; f < sl.n; f++ {
 				for _, val := range vals {
-					if !sim.Thorough() && (f*7+val)%3 != 0 {
+					if val == 10 && (f > 1 || sl.n == 8 || sl.n == 3) {
+						continue
+					}
+					if !sim.Thorough() && val != 10 && (f*7+val)%3 != 0 {
 						continue
 					}
 					idx++
